@@ -149,9 +149,9 @@ def trailing_comma_variants(item):
                 depth_attr -= 1
             if eligible:
                 inner = item[start + 1:i].strip()
-                # one-element lists only when the element is a plain type / expression: a lone keyword (`skip,`), string literal,
+                # one-element lists only when the element is a plain type / expression: a lone keyword (`skip,`),
                 # `name(...)` group or `name = value` followed by a comma is not a spelling the documentation suggests anywhere
-                lone_special = re.fullmatch(r'(skip|ignore|forward|repr|owned|ref|ref_mut|source|backtrace)|"[^"]*"|\w+\s*\(.*\)|\w+\s*=.*', inner, re.S) and not _has_top_level_comma(inner)
+                lone_special = re.fullmatch(r'(skip|ignore|forward|repr|owned|ref|ref_mut|source|backtrace)|\w+\s*\(.*\)|\w+\s*=.*', inner, re.S) and not _has_top_level_comma(inner)
                 if inner and not inner.endswith(",") and not lone_special:
                     out.append(item[:i] + "," + item[i:])
         i += 1
